@@ -78,7 +78,7 @@ def extract(force=False):
             return out
         if os.path.exists(out):
             shutil.rmtree(out)
-        tmp = out + ".tmp"
+        tmp = out + ".tmp%d" % os.getpid()
         if os.path.exists(tmp):
             shutil.rmtree(tmp)
         os.makedirs(tmp)
@@ -113,7 +113,13 @@ def extract(force=False):
             raise SystemExit("fact extraction incomplete (fail closed): missing %s" % missing)
         with open(os.path.join(tmp, "OK"), "w") as fh:
             json.dump({"wall_s": time.time() - t0, "hash": hsh}, fh)
-        os.rename(tmp, out)
+        try:
+            os.rename(tmp, out)
+        except OSError:
+            # another extraction of the very same tree (a matrix stream working on an identical patch) finished first
+            shutil.rmtree(tmp, ignore_errors=True)
+            if not os.path.exists(os.path.join(out, "OK")):
+                raise
         # keep the cache small: retain the 6 most recent fact sets
         fdir = os.path.join(CACHE, "facts")
         ds = sorted((os.path.getmtime(os.path.join(fdir, d)), d) for d in os.listdir(fdir))
